@@ -474,7 +474,7 @@ def run(tier, seed):
             break
         mism += len(f)
         for j in f[:2]:
-            rep.violation("tee:model-mismatch", {"broken": "correspondence impl<->Model/Tee.v (trun), per-action snapshots", "case": sh[j][:4000]}, no_input=not fails)
+            rep.violation("tee:model-mismatch", {"broken": "correspondence impl<->Model/Tee.v (trun), per-action snapshots", "case": sh[j][:4000]}, no_input=not rep.has_failing_input())
     rep.cov["traces_validated_against_impl"] = len(texts)
     rep.notes["model_mismatches"] = mism
     if not proofs_ok:
